@@ -304,11 +304,9 @@ func chainReplay(args []string) {
 
 	var links, algebra int64
 
+	// (the parsers are made per chain, see below; what the parser reports for ANCHORED operations does not depend on the
+	// time validator - which judges requests that are not anchored yet: a validator that refuses everything)
 	p := testProtocol(1)
-	parser := operationparser.New(p)
-	// what the parser reports for ANCHORED operations does not depend on the time validator (which judges
-	// requests that are not anchored yet): a validator that refuses everything
-	anchoredParser := operationparser.New(p, operationparser.WithAnchorTimeValidator(refusingTimeValidator{}))
 
 	readTagged(os.Stdin, "CHAIN", fl.str("tlclog", ""), func(line []byte) {
 		if seen[string(line)] {
@@ -353,6 +351,17 @@ func chainReplay(args []string) {
 					}
 
 					alg := algCode(h)
+
+					// (the configured algorithms in either order: the one a chain uses is the LAST of the list in the SHA-256
+					// chains and in the chains of keys with nonces)
+					p := p
+					if h == 256 || mode == 1 {
+						p.MultihashAlgorithms = []uint{sha2_512, sha2_256}
+					}
+
+					parser := operationparser.New(p)
+					anchoredParser := operationparser.New(p, operationparser.WithAnchorTimeValidator(refusingTimeValidator{}))
+
 					algOfKey := func(id int) int {
 						if h != 0 {
 							return alg
@@ -514,6 +523,12 @@ func chainReplay(args []string) {
 
 							if nonce {
 								signed["anchorOrigin"] = map[string]interface{}{"ledger": "main", "shards": []interface{}{1, 2}}
+
+								// (a list of objects with the same member names, objects inside an object likewise)
+								if i%2 == 0 {
+									signed["anchorOrigin"] = []interface{}{map[string]interface{}{"uri": "https://a.example/", "w": 1}, map[string]interface{}{"uri": "https://b.example/", "w": 2},
+										map[string]interface{}{"primary": map[string]interface{}{"uri": "x"}, "backup": map[string]interface{}{"uri": "y"}}}
+								}
 							}
 						case "deactivate":
 							signed["recoveryKey"] = jwkMap(jwk)
